@@ -16,6 +16,8 @@ Section P.
 Variable p : prog.
 Hypothesis wfp : wf_prog p.
 Notation memob := (memob p).
+Notation dead := (dead p).
+Notation GoneSame := (GoneSame p).
 Notation effb := (effb p).
 Notation sigb := (sigb p).
 Notation WF := (WF p).
@@ -133,22 +135,44 @@ Definition core_same (n n' : node) : Prop :=
   sval n' = sval n /\ subs n' = subs n /\ st n' = st n /\ cache n' = cache n /\ srcs n' = srcs n /\
   rlog n' = rlog n /\ since n' = since n.
 
+(* an update of an effect node does not dispose (or revive) any source *)
+Lemma updn_eff_GoneSame e f s : effb e = true -> GoneSame s (updn e f s).
+Proof.
+  intros He k. destruct (Nat.eq_dec k e) as [->|Hk].
+  - rewrite !dead_eff; auto.
+  - apply dead_node. apply getn_updn_other; auto.
+Qed.
+
+Lemma GoneSame_getn s s' : (forall k, getn s' k = getn s k) -> GoneSame s s'.
+Proof. intros H k. apply dead_node. auto. Qed.
+
+(* the states of the task loop differ from one another by updates of the polled effect only *)
+Ltac gs :=
+  repeat match goal with |- GraphPullDefs.GoneSame _ _ ?x => unfold x end;
+  repeat (first [ apply GoneSame_refl
+                | apply updn_eff_GoneSame; solve [auto]
+                | apply GoneSame_getn; intros; rewrite ?getn_emit, ?getn_enqueue; reflexivity
+                | eapply GoneSame_trans; [|apply updn_eff_GoneSame; solve [auto]] ]).
+
 Lemma InvBut_updn e f s :
+  effb e = true ->
   InvBut e [] 0 s -> (forall n, core_same n (f n)) -> InvBut e [] 0 (updn e f s).
 Proof.
-  intros I Hf.
+  intros He I Hf.
+  assert (Hgs := updn_eff_GoneSame e f s He).
   assert (Hoth : forall k, k <> e -> getn (updn e f s) k = getn s k) by (intros k Hk; apply getn_updn_other; auto).
   assert (Hall : forall k, core_same (getn s k) (getn (updn e f s) k)).
   { intros k. destruct (getn_updn_cases e f s k) as [[_ E]|E]; rewrite E; auto. unfold core_same; intuition. }
   assert (Hcur : forall x, cur (updn e f s) x = cur s x).
   { intros x. apply cur_view; apply Hall. }
   split.
-  - apply (WF_same_edges p s (updn e f s)); [apply nlen_updn| |apply I].
+  - apply (WF_same_edges p s (updn e f s)); [apply nlen_updn| |exact Hgs|apply I].
     intros k. destruct (Hall k) as (_&?&_&_&?&_). auto.
   - apply I.
   - apply I.
   - intros i Hi Hie. apply (Rest_ext p s (updn e f s) i).
     + rewrite (Hoth i Hie). apply nview_eq_refl.
+    + exact Hgs.
     + intros x v _. apply Hcur.
     + intros x v _ _ Hc. destruct (Hall x) as (_&_&->&_). exact Hc.
     + apply (ib_rest _ _ _ _ _ I i Hi Hie).
@@ -227,10 +251,14 @@ Proof.
     destruct (eval p R true c a s) as [s1 x] eqn:E1. inversion Hev; subst s' v. clear Hev.
     destruct (IHa c s s1 x) as (I1 & T1 & P1); auto. { split; auto. }
     assert (HL : L1 s1 e) by (unfold TopOK in T1; rewrite Hc in T1; exact T1).
-    destruct (Inv_write p [e] e w x s1 I1 Hsw) as (I2 & Hun & P2).
+    unfold write_sig. destruct (sgone (getn s1 w)) eqn:Egw.
+    { (* set on a disposed signal: nothing happens *) split; auto. }
+    assert (Hlw : dead s1 w = false).
+    { rewrite dead_src; auto. unfold GraphInvariant.effb, GraphInvariant.sigb in *. destruct (decl_of p w); congruence. }
+    destruct (Inv_write p [e] e w x s1 I1 Hsw Hlw) as (I2 & Hun & P2).
     { intros k [<-|[]]. split; [|split; auto].
       intros E. subst w. unfold GraphInvariant.effb, GraphInvariant.sigb in *. destruct (decl_of p e); discriminate. }
-    unfold write_sig. split; auto. split.
+    split; auto. split.
     + unfold TopOK. rewrite Hc. unfold L1. rewrite (Hun e (or_introl eq_refl)). exact HL.
     + eapply EffRel_trans; eauto.
 Qed.
@@ -328,7 +356,7 @@ Lemma any_plain_spec e : forall l s s1 ch,
   e <= length p -> (forall x, In x l -> x < e) ->
   Inv0 s -> any_plain p top_ctx l s = (s1, ch) ->
   Inv0 s1 /\ PullRel e [] None s s1 /\
-  (ch = false -> forall x, In x l -> memob x = true -> st (getn s1 x) = Clean) /\
+  (ch = false -> forall x, In x l -> memob x = true -> dead s1 x = false -> st (getn s1 x) = Clean) /\
   (ch = true -> exists x, In x l /\ forall k, In x (tracked_of (rlog (getn s1 k))) -> since (getn s1 k) <> []).
 Proof.
   destruct (lvl_spec p wfp (N p)) as [HU _]. fold (upd_top p) in HU.
@@ -347,8 +375,10 @@ Proof.
     + destruct (IH s2 s1 ch Hel) as (I1 & P1 & Hn & Hy); auto.
       { intros y Hy. apply Hl; right; auto. }
       split; auto. split; [eapply PullRel_trans; eauto|]. split.
-      * intros Hf y [<-|Hy'] Hm; [|apply Hn; auto].
-        destruct (Hcl Hm) as [Hc2 _]. apply (pr_stable _ _ _ _ _ _ P1 x Hm); auto.
+      * intros Hf y [<-|Hy'] Hm Hgy; [|apply Hn; auto].
+        assert (Hgx : dead s x = false).
+        { rewrite <- (PullRel_GoneSame p _ _ _ _ _ P2' x), <- (PullRel_GoneSame p _ _ _ _ _ P1 x). exact Hgy. }
+        destruct (Hcl Hm Hgx) as [Hc2 _]. apply (pr_stable _ _ _ _ _ _ P1 x Hm); auto.
       * intros Ht. destruct (Hy Ht) as (y & Hy1 & Hy2). exists y. split; auto. right; auto.
 Qed.
 
@@ -359,7 +389,8 @@ Lemma eff_check_spec e s s' need :
   rlog (getn s' e) = rlog (getn s e) /\ srcs (getn s' e) = srcs (getn s e) /\
   edirty (getn s' e) = false /\ emissed (getn s' e) = false /\
   (need = false -> Inv0 s' /\
-     forall x v, In (x, v, true) (rlog (getn s' e)) -> memob x = true -> st (getn s' x) = Clean) /\
+     forall x v, In (x, v, true) (rlog (getn s' e)) -> memob x = true -> dead s' x = false ->
+                 st (getn s' x) = Clean) /\
   (need = true -> InvBut e [] 0 s' /\ queue_ok s' e /\
      (hasrun s' e = true -> since (getn s' e) <> [])).
 Proof.
@@ -370,7 +401,7 @@ Proof.
   set (s0 := updn e (fun n => set_emissed n false) s) in *.
   assert (E0 : getn s0 e = set_emissed (getn s e) false) by (apply getn_updn_same; auto).
   assert (IB0 : InvBut e [] 0 s0).
-  { apply InvBut_updn; [exact I|]. intros n. unfold core_same; nsimpl; intuition. }
+  { apply InvBut_updn; [exact He|exact I|]. intros n. unfold core_same; nsimpl; intuition. }
   assert (S0 : eff_static s s0) by (apply updn_static; intros n; nsimpl; auto).
   destruct HR as (R1 & R2 & R3 & R4 & R5).
   assert (Hq0 : forall d, edirty (getn s0 e) = d -> queue_ok (updn e (fun n => set_edirty n false) s0) e).
@@ -400,7 +431,7 @@ Proof.
           GraphInvariant.will_run.
         rewrite Hd, E0. cbn [needs_cur_n needs_clean_n will_run_n]. nsimpl.
         split; [exact R1|]. split; [exact Logic.I|]. split; [|split].
-        + intros Hn. apply (Lcur_ext p s s0 e); [rewrite E0; reflexivity| |].
+        + intros Hn. apply (Lcur_ext p s s0 e); [rewrite E0; reflexivity|gs| |].
           * intros x v _. apply cur_view; unfold s0; [apply (updn_field sval)|apply (updn_field cache)]; auto.
           * apply R3. unfold GraphInvariant.needs_cur. rewrite Hd. exact Hn.
         + intros (_&_&_&_&_&Hpf). rewrite Hp in Hpf. discriminate.
@@ -430,7 +461,7 @@ Proof.
     rewrite E2. nsimpl. rewrite Hr1, Hs1, E0. nsimpl.
     split; auto. split; auto. split; auto. split; auto.
     assert (IB2 : InvBut e [] 0 s2).
-    { apply InvBut_updn; [apply Inv_InvBut; auto|]. intros n. unfold core_same; nsimpl; intuition. }
+    { apply InvBut_updn; [auto|apply Inv_InvBut; auto|]. intros n. unfold core_same; nsimpl; intuition. }
     assert (Q2 : queue_ok s2 e).
     { unfold GraphInvariant.queue_ok, queue_ok_n. rewrite Hd, E2. nsimpl.
       intros _. split; [discriminate|]. rewrite Hpo1. discriminate. }
@@ -443,7 +474,9 @@ Proof.
           rewrite E; [|apply nview_eq_refl]. unfold nview_eq; nsimpl. rewrite Hdf. intuition. }
       split.
       * apply (Inv_views p [] 0 s1 s2); auto; try apply IB2.
-      * intros x v Hx Hm. unfold s2. rewrite (updn_field st) by auto.
+      * intros x v Hx Hm Hgx. unfold s2. rewrite (updn_field st) by auto.
+        assert (Hgx1 : dead s1 x = false).
+        { rewrite <- Hgx. symmetry. apply (updn_eff_GoneSame e _ s1 He). }
         apply (Hn eq_refl); auto. rewrite Hsr0. unfold L1 in R1. rewrite R1. apply in_tracked_of. eauto.
     + intros Ht. split; auto. split; auto.
       intros Hh. assert (Hh1 : hasrun s1 e = true).
@@ -526,7 +559,7 @@ Proof.
   set (sa := updn e (fun n => set_eflag n false) s).
   assert (Ea : getn sa e = set_eflag (getn s e) false) by (apply getn_updn_same; auto).
   assert (IBa : InvBut e [] 0 sa).
-  { apply InvBut_updn; [apply Inv_InvBut; auto|]. intros n. unfold core_same; nsimpl; intuition. }
+  { apply InvBut_updn; [auto|apply Inv_InvBut; auto|]. intros n. unfold core_same; nsimpl; intuition. }
   assert (Sa : eff_static s sa) by (apply updn_static; intros n; nsimpl; auto).
   assert (Hcura : forall x, cur sa x = cur s x).
   { intros x. apply cur_view; unfold sa; [apply (updn_field sval)|apply (updn_field cache)]; auto. }
@@ -534,7 +567,7 @@ Proof.
   { unfold GraphInvariant.Rest, L1, uncached_ok, GraphInvariant.needs_cur, GraphInvariant.needs_clean,
       GraphInvariant.will_run. rewrite Hde, Ea. cbn [needs_cur_n needs_clean_n will_run_n hasrun_n]. nsimpl.
     split; [exact R1|]. split; [exact Logic.I|]. split; [|split].
-    - intros Hn. apply (Lcur_ext p s sa e); [rewrite Ea; reflexivity|intros x v _; apply Hcura|].
+    - intros Hn. apply (Lcur_ext p s sa e); [rewrite Ea; reflexivity|gs|intros x v _; apply Hcura|].
       apply R3. unfold GraphInvariant.needs_cur. rewrite Hde. exact Hn.
     - intros (_&_&_&_&_&Hpf). congruence.
     - intros Hw. apply R5. unfold GraphInvariant.will_run. rewrite Hde. exact Hw. }
@@ -551,7 +584,7 @@ Proof.
       * unfold GraphInvariant.Rest, L1, uncached_ok, GraphInvariant.needs_cur, GraphInvariant.needs_clean,
           GraphInvariant.will_run. rewrite Hde, E'. cbn [needs_cur_n needs_clean_n will_run_n hasrun_n]. nsimpl.
         split; [exact R1|]. split; [exact Logic.I|]. split; [|split].
-        -- intros Hn. apply (Lcur_ext p s s' e); [rewrite E'; reflexivity| |].
+        -- intros Hn. apply (Lcur_ext p s s' e); [rewrite E'; reflexivity|gs| |].
            ++ intros x v _. apply cur_view; unfold s', sa; rewrite ?(updn_field sval), ?(updn_field cache); auto.
            ++ apply R3. unfold GraphInvariant.needs_cur. rewrite Hde. exact Hn.
         -- intros (_&_&_&_&Hm&_). discriminate.
@@ -635,13 +668,13 @@ Proof.
         assert (E3 : getn s3 e = set_efirst (getn s2 e) false).
         { apply getn_updn_same. rewrite (wf_len p s2 (inv_wf _ _ _ _ I2)); auto. }
         assert (IB3 : InvBut e [] 0 s3).
-        { apply InvBut_updn; [apply Inv_InvBut; auto|]. intros n. unfold core_same; nsimpl; intuition. }
+        { apply InvBut_updn; [auto|apply Inv_InvBut; auto|]. intros n. unfold core_same; nsimpl; intuition. }
         assert (Hv3 : forall x, cur s3 x = cur s2 x).
         { intros x. apply cur_view; unfold s3; [apply (updn_field sval)|apply (updn_field cache)]; auto. }
         assert (Hc3 : Lcur s3 e).
-        { apply (Lcur_ext p s2 s3 e); [rewrite E3; reflexivity|intros x v _; apply Hv3|exact Hc2]. }
+        { apply (Lcur_ext p s2 s3 e); [rewrite E3; reflexivity|gs|intros x v _; apply Hv3|exact Hc2]. }
         assert (Hcl3 : Lclean s3 e).
-        { apply (Lclean_ext p s2 s3 e); [rewrite E3; reflexivity| |exact Hcl2].
+        { apply (Lclean_ext p s2 s3 e); [rewrite E3; reflexivity|gs| |exact Hcl2].
           intros x v _ _ Hcx. unfold s3. rewrite (updn_field st); auto. }
         split.
         -- apply (close_after_run e s3 IB3 He).
